@@ -7,6 +7,7 @@ import SST.Drv.MemStore
 import SST.Drv.Kaitai
 import SST.Drv.Wal
 import SST.Drv.Handles
+import SST.Drv.Conc
 open SST SST.Drv
 
 def handle (line : String) : String :=
@@ -24,6 +25,7 @@ def handle (line : String) : String :=
     | "merge.super" => mergeSuper a
     | "merge.run" => mergeRun a
     | "db.run" => dbRun a
+    | "conc.exec" => concExec a
     | "mem.run" => memRun a
     | "sst.write" => sstWrite a
     | "sst.read" => sstRead a
